@@ -369,7 +369,14 @@ func (r *Runtime) checkHostObjectPropertyDescr(name unistring.String, descr Prop
 func (o *objectGoReflect) defineOwnPropertyStr(name unistring.String, descr PropertyDescriptor, throw bool) bool {
 	if o.val.runtime.checkHostObjectPropertyDescr(name, descr, throw) {
 		n := name.String()
-		if has, ok := o._put(n, descr.Value, throw); !has {
+		val := descr.Value
+		if val == nil {
+			if o.hasOwnPropertyStr(name) {
+				return true
+			}
+			val = _undefined
+		}
+		if has, ok := o._put(n, val, throw); !has {
 			o.val.runtime.typeErrorResult(throw, "Cannot define property '%s' on a host object", n)
 			return false
 		} else {
